@@ -2235,3 +2235,109 @@ func (c *Ctx) snapshotParallel(rule string, funcs []*FuncInfo) (n, nviol int) {
 	}
 	return
 }
+
+// ---------------------------------------------------------------------------------------------
+// INDEX-SYNC (C15): a name index built from the tree before a loop (NewNodeIndex) and consulted
+// inside the loop must be told about every node the loop adds to the tree (AddNode of the node
+// returned by the inserting call); otherwise a later item that refers to a tip inserted by an
+// earlier one is silently skipped.
+func (c *Ctx) indexSync(rule string, funcs []*FuncInfo) (n, nviol int) {
+	clause := "add exactly the requested tips"
+	createsNode := func(g *types.Func) bool {
+		gi := c.FuncOfObj(g)
+		if gi == nil || gi.Decl.Body == nil {
+			return false
+		}
+		sig := g.Type().(*types.Signature)
+		if sig.Results().Len() == 0 || !strings.HasSuffix(sig.Results().At(0).Type().String(), "tree.Node") {
+			return false
+		}
+		for _, call := range callsIn(gi.Decl.Body, true) {
+			if isRepoFunc(calleeOf(gi.Pkg.TypesInfo, call), "tree", "Tree", "NewNode") {
+				return true
+			}
+		}
+		return false
+	}
+	for _, fi := range funcs {
+		if fi.Decl.Body == nil {
+			continue
+		}
+		info := fi.Pkg.TypesInfo
+		// locals holding an index built from the tree
+		idxVars := map[types.Object]bool{}
+		ast.Inspect(fi.Decl.Body, func(m ast.Node) bool {
+			if as, ok := m.(*ast.AssignStmt); ok && len(as.Rhs) == 1 {
+				if call, ok := unparen(as.Rhs[0]).(*ast.CallExpr); ok && isRepoFunc(calleeOf(info, call), "tree", "", "NewNodeIndex") && len(as.Lhs) >= 1 {
+					if o := identObj(info, as.Lhs[0]); o != nil {
+						idxVars[o] = true
+					}
+				}
+			}
+			return true
+		})
+		if len(idxVars) == 0 {
+			continue
+		}
+		ast.Inspect(fi.Decl.Body, func(m ast.Node) bool {
+			var body *ast.BlockStmt
+			switch l := m.(type) {
+			case *ast.RangeStmt:
+				body = l.Body
+			case *ast.ForStmt:
+				body = l.Body
+			default:
+				return true
+			}
+			// outermost loops only: consult + insert anywhere inside
+			var consulted types.Object
+			var inserts []*ast.CallExpr
+			added := map[types.Object]bool{} // node variables given to AddNode of the index
+			for _, call := range callsIn(body, true) {
+				g := calleeOf(info, call)
+				if g == nil {
+					continue
+				}
+				if sel, ok := unparen(call.Fun).(*ast.SelectorExpr); ok && idxVars[identObj(info, sel.X)] {
+					switch g.Name() {
+					case "GetNode":
+						consulted = identObj(info, sel.X)
+					case "AddNode":
+						for _, a := range call.Args {
+							if o := identObj(info, a); o != nil {
+								added[o] = true
+							}
+						}
+					}
+					continue
+				}
+				if inRepo(g) && g.Pkg() == fi.Obj.Pkg() && createsNode(g) {
+					inserts = append(inserts, call)
+				}
+			}
+			if consulted == nil || len(inserts) == 0 {
+				return true
+			}
+			for _, ins := range inserts {
+				n++
+				key := fmt.Sprintf("%s/%s→%s.AddNode", funcName(fi.Obj), calleeOf(info, ins).Name(), consulted.Name())
+				// the variable receiving the created node
+				var res types.Object
+				ast.Inspect(body, func(q ast.Node) bool {
+					if as, ok := q.(*ast.AssignStmt); ok && len(as.Rhs) == 1 && unparen(as.Rhs[0]) == ast.Expr(ins) && len(as.Lhs) >= 1 {
+						res = identObj(info, as.Lhs[0])
+					}
+					return true
+				})
+				if res != nil && added[res] {
+					c.OK(rule, key, ins.Pos(), "the node created in the loop is added to the index the loop consults")
+				} else {
+					nviol++
+					c.Violation(rule, key, ins.Pos(), fmt.Sprintf("the loop looks names up in %s, built before the loop, and adds nodes to the tree with %s without adding them to %s: a later group whose existing member was inserted by an earlier group is silently skipped", consulted.Name(), calleeOf(info, ins).Name(), consulted.Name())).Clause = clause
+				}
+			}
+			return false
+		})
+	}
+	return
+}
